@@ -159,4 +159,14 @@ TEXT["C13"] = {
     "note": _TB + "Partial: whether a given codec / data type / chunk grid configuration is usable is decided by the plugins, not modelled (the generator states which documents are built from valid parts); stored codec configurations are re-created by the codecs and are compared by name only; V2 documents are judged on the store/re-open fixed point, not modelled; repeated keys of typed fields (rejected by serde) are flagged by the generator; absence of panics after open is explored, not proved. Node names starting with `__` are hidden by the code only at the root (modelled as written).",
     "technique": "Lean 4 proofs of metadata document round trip / fixed point and of hierarchy discovery exactness + structured differential documents and random hierarchy histories on 4 store kinds",
 }
+TEXT["C12"] = {
+    "level": "Machine-checked proof about an independent, specification-level Zarr reader/writer written in Lean (own DEFLATE decoder validated against zlib, gzip/zlib containers with CRC-32/Adler-32, "
+             "shard index reader, chunk grid and key arithmetic, V2 C/F order): stored-block DEFLATE, gzip and zlib members read back; any chain of gzip/crc32c inverts; EVERY legal shard — inner chunks "
+             "anywhere, in any order, with any padding, index at either end, either byte order, with/without checksum — decodes to its intended inner chunks, and the writer's placement is legal for every "
+             "order/padding choice; a chunk written under any layout choice reads back and the reader's result does not depend on the layout; whole V3 and V2 arrays (ragged edges, omitted all-fill chunks, "
+             "either key encoding/separator) read back. That reader is then run against the implementation in BOTH directions on generated configurations: it decodes every value zarrs stored to exactly "
+             "what was written through the API, and zarrs reads arrays the model wrote with layout variations zarrs itself never emits.",
+    "note": _TB + "The specification-level reader is this check's reading of the specifications; fixed-Huffman DEFLATE is exercised, its inversion theorem is a hypothesis (DeflateOk) proved for stored blocks; one level of sharding; data types of 1/2/4/8 bytes.",
+    "technique": "Lean 4 proofs of layout-independence of a specification-level reader/writer + two-directional differential run (zarrs writes/model reads, model writes with foreign layouts/zarrs reads)",
+}
 NOT_YET = {}
